@@ -93,6 +93,7 @@ class Tie:
         self.axioms = {}        # theorem -> list of axioms
         self.build_s = 0.0
         self.driver_ok = False
+        self.source = {}        # the source tie (translated Python = model), per SrcTie module
 
     @property
     def ok(self):
@@ -136,6 +137,58 @@ def theorem_names(prop_id: str):
     ns = f'Cardutil.Props.{prop_id}'
     names = re.findall(r'^\s*theorem\s+([A-Za-z_][A-Za-z0-9_\.\'?!]*)', src, re.M)
     return [f'{ns}.{n}' for n in names]
+
+
+# the source tie: which SrcTie modules concern which property, and the translated functions each one needs
+SRC_TIE = {
+    'C14': {'Misc': ['_get_tsp', '_pan_prefix']},
+    'C15': {'Card': ['calculate_check_digit', 'validate_check_digit', 'add_check_digit', 'mask']},
+    'C16': {'Card': ['calculate_check_digit', 'validate_check_digit', 'add_check_digit', 'mask'],
+            'Misc': ['_get_tsp', '_pan_prefix']},
+    'C17': {'Info': ['block_1014_check', 'encoding_check']},
+}
+
+
+def srctie_theorems(module):
+    path = os.path.join(LEAN, 'Cardutil', 'SrcTie', f'{module}.lean')
+    src = strip_comments(open(path).read())
+    return ['Cardutil.SrcTie.' + n for n in re.findall(r'^\s*theorem\s+([A-Za-z_][A-Za-z0-9_\.\'?!]*)', src, re.M)]
+
+
+def run_source_tie(prop_id, tie, src_status):
+    """build the SrcTie modules of this property (translated source = model, for all inputs) and audit their axioms.
+    A module that does not build means: the source tie is NOT ESTABLISHED for the current source (a rewrite the
+    translator or the equality proofs do not follow).  That is recorded and makes the check escalate its search;
+    it is not a tie failure by itself — the behavioural correspondence remains the deciding tie."""
+    for module, funcs in SRC_TIE.get(prop_id, {}).items():
+        entry = {'functions': {f: src_status.get(f, 'not translated') for f in funcs}}
+        p = subprocess.run(['lake', 'build', f'Cardutil.SrcTie.{module}'], cwd=LEAN, capture_output=True, text=True)
+        if p.returncode != 0:
+            errs = re.findall(r'^error: (.*)$', p.stdout + p.stderr, re.M)
+            entry['status'] = 'not established'
+            entry['detail'] = '\n'.join(errs[:8]) or (p.stdout + p.stderr)[-800:]
+        else:
+            names = srctie_theorems(module)
+            apath = os.path.join(LEAN, '.lake', 'audit', f'{prop_id}_src_{module}.lean')
+            os.makedirs(os.path.dirname(apath), exist_ok=True)
+            with open(apath, 'w') as f:
+                f.write(f'import Cardutil.SrcTie.{module}\n')
+                for t in names:
+                    f.write(f'#print axioms {t}\n')
+            a = subprocess.run(['lake', 'env', 'lean', apath], cwd=LEAN, capture_output=True, text=True)
+            text = a.stdout + a.stderr
+            ax = {}
+            for m in re.finditer(r"'([^']+)' depends on axioms: \[([^\]]*)\]", text):
+                ax[m.group(1)] = [x.strip() for x in m.group(2).replace('\n', ' ').split(',') if x.strip()]
+            for m in re.finditer(r"'([^']+)' does not depend on any axioms", text):
+                ax[m.group(1)] = []
+            bad = {t: [x for x in ax.get(t, ['?']) if x not in ALLOWED_AXIOMS] for t in names}
+            bad = {t: b for t, b in bad.items() if b}
+            entry['theorems'] = names
+            entry['status'] = 'proved' if not bad else 'not established'
+            if bad:
+                entry['detail'] = f'axioms outside the allowed set: {bad}'
+        tie.source[module] = entry
 
 
 def run_tie(prop_id: str, thorough: bool = False, log=None) -> Tie:
@@ -192,6 +245,8 @@ def run_tie(prop_id: str, thorough: bool = False, log=None) -> Tie:
                 if m:
                     tie.failures.append({'stage': 'audit', 'what': os.path.relpath(path, LEAN),
                                          'detail': f'forbidden token {m.group(0)!r}'})
+            if prop_id in SRC_TIE:
+                run_source_tie(prop_id, tie, getattr(gen_tables, 'SRC_STATUS', {}))
             if thorough:
                 lc = subprocess.run(['lake', 'env', 'leanchecker', f'Cardutil.Props.{prop_id}'],
                                     cwd=LEAN, capture_output=True, text=True)
